@@ -168,13 +168,14 @@ theorem got_step {s : Node} {c : Nat} {x : Conn} (hx : s.conns[c]? = some x) (e 
   have hlt := idx_lt hx
   have frame : ∀ (hf : match e with
       | .accept _ => True | .request d _ _ => d ≠ c | .leaderMsg d _ _ => d ≠ c | .linkDown d => d ≠ c
-      | .role _ => True | .leader _ => False | .close d => d ≠ c),
+      | .role _ => True | .unattached _ => True | .leader _ => False | .close d => d ≠ c),
       msgsTo c (step s e).2.client = [] →
       ∃ x', (step s e).1.conns[c]? = some x' ∧ x'.got = x.got ++ msgsTo c (step s e).2.client := by
     intro hf hm; exact ⟨x, step_frame hx e hf, by rw [hm]; simp⟩
   cases e with
   | accept k => exact frame trivial (by simp [step, msgsTo])
   | role r => exact frame trivial (by simp [step, msgsTo])
+  | unattached d => exact frame trivial (by simp [step, msgsTo])
   | request d short q =>
     by_cases hd : d = c
     · subst hd
@@ -258,6 +259,7 @@ theorem got_step_none {s : Node} {c : Nat} (hx : s.conns[c]? = none) (e : Event)
     · right; subst hc; exact ⟨{ kind := k }, by simp, rfl⟩
     · left; apply List.getElem?_eq_none; simp; omega
   | role r => exact ⟨by simp [step, msgsTo], Or.inl hx⟩
+  | unattached d => exact ⟨by simp [step, msgsTo], Or.inl hx⟩
   | request d short q =>
     simp only [step, stepRequest]
     split
